@@ -5,7 +5,7 @@ import pf
 import q
 from callgraph import CallGraph
 from mir import Agg, Bin, Call, Const, Deref, Field, Named, Ref, Var
-from rules.common import expect_defs, has_fact, option_blocks
+from rules.common import expect_defs, has_fact, opt_fact, option_blocks
 
 GET_LINE = "sourceview::SourceView::get_line"
 LINE_COUNT = "sourceview::SourceView::line_count"
@@ -349,7 +349,7 @@ def c15_r3_iter(ctx, rule="C15.R3"):
         if not is_term and s["k"] == "assign" and s["place"]["p"] and s["place"]["p"][-1].get("n") == "idx":
             sh = q.shape(b.expr_of_rvalue(s["rv"]))
             ctx.check(sh == "Add(1,arg1.idx)", rule, fn, "idx+=1", "the index advances by one", ctx.site(b, bi, si))
-            ctx.check(has_fact(b, bi, {}, ("variant_in", "SourceView::get_line(*)", (1,))), rule, fn, "idx:on-some", "... only after a line was returned", ctx.site(b, bi, si))
+            ctx.check(has_fact(b, bi, {}, *opt_fact("some", "SourceView::get_line(*)")), rule, fn, "idx:on-some", "... only after a line was returned", ctx.site(b, bi, si))
     b2 = ctx.body(LINE_COUNT)
     calls = q.calls_to(b2, GET_LINE)
     ok = len(calls) == 1 and q.shape(q.arg_expr(b2, calls[0][1], 1)) in ("Not(0)", "4294967295")
